@@ -149,8 +149,12 @@ def verify_function(qualname: str, self_class: Optional[str] = None, timeout_ms=
                 over, facts = builder(it, ct, arg)
                 for k_, v_ in over.items():
                     env[k_] = v_
-                    res.inputs[k_] = v_.term      # counter-models are concretised through the shape term
-                    res.input_tys[k_] = v_.ty
+                    if isinstance(v_, SV):
+                        res.inputs[k_] = v_.term      # counter-models are concretised through the shape term
+                        res.input_tys[k_] = v_.ty
+                    elif isinstance(v_, Box) and v_.items is not None:
+                        res.inputs[k_] = ('list', [x.term if isinstance(x, SV) else x for x in v_.items])
+                        res.input_tys[k_] = ('list', [x.ty if isinstance(x, SV) else None for x in v_.items])
                 for f_ in facts:
                     ex.assume(f_)
             if is_ctor:
@@ -224,7 +228,7 @@ def verify_function(qualname: str, self_class: Optional[str] = None, timeout_ms=
         res.uninterpreted = sorted(it.uninterpreted)
         res.writes = sorted(set(it.writes))
         # vacuity: the precondition alone must be satisfiable
-        res.pre_sat = check_pre_sat(con, names, ptys, consts, ct, self_class, is_ctor)
+        res.pre_sat = 'shape' if shape else check_pre_sat(con, names, ptys, consts, ct, self_class, is_ctor)
     except Untranslatable as e:
         res.status = 'untranslatable'
         res.message = str(e)
